@@ -630,3 +630,31 @@ func conKeys(cs []Con) map[string]bool {
 	}
 	return m
 }
+
+// provesUpper: l <= bound, using the assumption that every length term is
+// below 2^40 (slices and strings of at most a terabyte).
+func (s *State) provesUpper(l Lin, bound int64) bool {
+	if l.isConst() {
+		return l.k <= bound
+	}
+	if s.provesLE(l.addK(-bound)) {
+		return true
+	}
+	cons := append([]Con{}, s.cons...)
+	seen := map[Term]bool{}
+	add := func(t Term) {
+		if nonneg[t] && !seen[t] {
+			seen[t] = true
+			cons = append(cons, Con{l: tvar(t).addK(-(int64(1) << 40))})
+		}
+	}
+	for t := range l.c {
+		add(t)
+	}
+	for _, c := range s.cons {
+		for t := range c.l.c {
+			add(t)
+		}
+	}
+	return entailsLE(cons, l.addK(-bound))
+}
